@@ -411,3 +411,52 @@ def all_pairs(check: Check, repo: Repo, rule: str = "ALL-PAIRS") -> None:
         elif not ok and len(loops) == 1:
             why = f"a single loop over `{unparse(loops[0].iter)}` compares one fixed field with the others, not all pairs"
         check.ob(rule, c, "collect_conflicts_within: find_conflict over all pairs", ok, why)
+
+
+# -- a cache keyed by AST nodes is an identity map ---------------------------------------------------------
+
+
+def node_key_identity(check: Check, repo: Repo, rule: str = "NODE-KEY-IDENTITY") -> None:
+    from rules.astmodel import AstModel
+
+    check.rule(
+        rule,
+        "AST nodes compare (and hash) by value. A memo whose key is a node but whose value also depends on "
+        "where the node sits (the parent type the field map is built for) must therefore be an identity map: "
+        "in the merge rule every function that does `cache.get(<node parameter>)` ... `cache[<node parameter>] = "
+        "value` with a value computed from further parameters receives a cache that the rule creates as "
+        "RefMap() (or keys it with id() and pins the node). With a plain dict two structurally equal selection "
+        "sets under different parent types - any document parsed with no_location=True - share one entry",
+    )
+    model = AstModel(repo)
+    mod = repo.mod(MOD)
+    sites = []
+    for fn in mod.functions():
+        ann = {a.arg: unparse(a.annotation) for a in fn.args.args if a.annotation is not None}
+        node_params = {p for p, t in ann.items() if any(nm in model.classes for nm in
+                                                       {x.id for x in ast.walk(ast.parse(t, mode="eval")) if isinstance(x, ast.Name)})}
+        for s in walk_body(fn):
+            if isinstance(s, ast.Assign) and len(s.targets) == 1 and isinstance(s.targets[0], ast.Subscript) \
+                    and isinstance(s.targets[0].value, ast.Name) and s.targets[0].value.id in ann:
+                key = s.targets[0].slice
+                knames = {x.id for x in ast.walk(key) if isinstance(x, ast.Name)}
+                by_id = any(isinstance(c, ast.Call) and call_name(c) == "id" for c in ast.walk(key))
+                if knames & node_params and not by_id:
+                    sites.append((fn, s, s.targets[0].value.id, sorted(knames & node_params)))
+    if not sites:
+        raise AnalysisError("NODE-KEY-IDENTITY: no node-keyed cache store found in the merge rule")
+    rule_cls = repo.cls(MOD, "OverlappingFieldsCanBeMergedRule")
+    init = next((m for m in rule_cls.body if isinstance(m, FuncDef) and m.name == "__init__"), None)
+    created = {}
+    if init is not None:
+        for s in walk_body(init):
+            tgt = s.targets[0] if isinstance(s, ast.Assign) and len(s.targets) == 1 else (s.target if isinstance(s, ast.AnnAssign) else None)
+            val = getattr(s, "value", None)
+            if isinstance(tgt, ast.Attribute) and unparse(tgt.value) == "self" and val is not None:
+                created[tgt.attr] = val
+    for fn, s, cache, keys in sites:
+        src = created.get(cache)
+        ok = isinstance(src, ast.Call) and call_name(src) == "RefMap"
+        check.ob(rule, s, f"{fn.name}: {cache}[{', '.join(keys)}] = ...", ok,
+                 f"self.{cache} is created as RefMap(): keyed by identity" if ok else
+                 f"self.{cache} is created as `{unparse(src) if src is not None else '?'}`: a plain mapping compares the node keys by value")
